@@ -741,3 +741,17 @@ Fixpoint digest_json (j : json) : json :=
   end.
 
 Definition predict_C10_sized (c : c10_case) : json := digest_json (predict_C10 c).
+
+(* ---- the emitted TS client on any failed response (C10 family "ts-client-error") ------------------------------- *)
+(* internal/tsclientgen/generator.go:388-414: `if (!resp.ok) return this.handleError(resp)`; handleError reads the
+   body ONCE as text, and for status 400 parses that text: a truthy `violations` member -> ValidationError(that
+   member); everything else (parse failure, no such member, null, any other status) -> ApiError(status,
+   "Request failed with status <n>", the body text).  case = (status, the body as a JSON document when it is
+   one); the thrown value's class, and what it carries: the violations, or the status and the unchanged text *)
+Definition c10_ts_client_case := (Z * option json)%type.
+Definition predict_C10_ts_client (c : c10_ts_client_case) : json :=
+  if ((fst c <? 300)%Z || (599 <? fst c)%Z) then JObj [(s "unmodelled", JStr (s "status outside 300..599 (resp.ok, or not a Response status)"))] else
+  match ts_client (fst c) (snd c) with
+  | TSValidation v => JObj [(s "tags", JArr []); (s "class", JStr (s "ValidationError")); (s "violations", v)]
+  | TSApi st _ => JObj [(s "tags", JArr []); (s "class", JStr (s "ApiError")); (s "status", JNum st); (s "body_same", JBool true)]
+  end.
